@@ -42,10 +42,12 @@ _INLINED = {}
 def writer_ast(ctx, fi):
     """the writer with its statement-level helpers inlined (one AST per model)"""
     from .common import inlined
-    key = (id(ctx.model), fi.qualname)
-    if key not in _INLINED:
-        _INLINED[key] = inlined(ctx, fi)
-    return _INLINED[key]
+    cache = getattr(ctx.model, '_inlined_writers', None)
+    if cache is None:
+        cache = ctx.model._inlined_writers = {}
+    if fi.qualname not in cache:
+        cache[fi.qualname] = inlined(ctx, fi)
+    return cache[fi.qualname]
 
 
 def _stderr_prints(fi, ctx=None):
